@@ -134,12 +134,28 @@ def render(doc: Doc) -> str:
             open_line = True
     begin()
     if doc.alias:
-        name, via_call = doc.alias
+        name, via_call = doc.alias[:2]
+        hop = doc.alias[2] if len(doc.alias) > 2 else None
         out[-1] += "let"
-        out.append("  " + name + " = ")
-        render_set(doc.core, 2, out)
-        out[-1] += ";"
-        out.append("in")
+        if hop:
+            # two hops: `name = defaults0;` next to `defaults0 = { … };`; with "shadowed" an inner layer binds
+            # `defaults0` again — lexical scoping still designates the one next to the alias
+            first = [("  defaults0 = ", True), ("  " + name + " = defaults0;", False)]
+            if hop.endswith("-rev"):
+                first.reverse()
+            for txt, is_set in first:
+                out.append(txt)
+                if is_set:
+                    render_set(doc.core, 2, out)
+                    out[-1] += ";"
+            out.append("in")
+            if hop.startswith("shadowed"):
+                out += ["let", "  defaults0 = { w0 = 2; };", "in"]
+        else:
+            out.append("  " + name + " = ")
+            render_set(doc.core, 2, out)
+            out[-1] += ";"
+            out.append("in")
         out.append(("f " if via_call else "") + name)
     else:
         render_set(doc.core, 0, out)
@@ -152,7 +168,7 @@ def render(doc: Doc) -> str:
 
 class DocGen:
     def __init__(self, seed: int, *, comments=True, wrappers=True, max_lets=3, attrpaths=True, nested=True, quoted=True, inherits=True, refs=False,
-                 nested_families=True, with_ident_env=True, lets_anywhere=True, let_before_call=True, trailing_comments=True, after_in_trivia=True, mixed_roots=True, aliases=True):
+                 nested_families=True, with_ident_env=True, lets_anywhere=True, let_before_call=True, trailing_comments=True, after_in_trivia=True, mixed_roots=True, aliases=True, alias_hops=True):
         self.r = random.Random(seed)
         self.comments = comments
         self.wrappers = wrappers
@@ -170,6 +186,7 @@ class DocGen:
         self.after_in_trivia = after_in_trivia
         self.mixed_roots = mixed_roots
         self.aliases = aliases
+        self.alias_hops = alias_hops
         self.n = 0
         self._depth0 = True
 
@@ -353,6 +370,8 @@ class DocGen:
             while wrappers and wrappers[-1][0] == "call":
                 wrappers.pop()
             alias = (r.choice(["args", "attrs", "cfg"]), r.random() < 0.5)
+            if self.alias_hops and r.random() < 0.4:
+                alias += (r.choice(["same", "same-rev", "shadowed", "shadowed-rev"]),)
             if r.random() < 0.35:
                 decoy = SetNode([Item("bind", (alias[0],), (False,), SetNode([Item("bind", ("decoy",), (False,), "1")], inline=True))])
                 positions = [i for i in range(len(wrappers) + 1) if not (i > 0 and wrappers[i - 1][0] == "call")]
